@@ -1,0 +1,11 @@
+//go:build verif
+
+package leader
+
+import "github.com/nats-io/nats.go"
+
+// NewNATSKeyValueAdapterForVerif exposes the package's adapter over a real JetStream
+// KV bucket to the verification harness in /verif (build tag "verif" only).
+func NewNATSKeyValueAdapterForVerif(kv nats.KeyValue) KeyValue {
+	return &natsKeyValueAdapter{kv: kv}
+}
